@@ -20,6 +20,7 @@ EXTENDS Integers, Sequences, FiniteSets, TLC
 CONSTANTS L,          \* successor list length (chord.ExtendedSuccessorEntries = 4)
           FixPred,    \* TRUE: RequestToJoin refuses (retryably) while the predecessor is nil or not pingable
           FixLeave,   \* TRUE: RequestToLeave refuses (retryably) unless the leaver is the node's predecessor
+          FixWrap,    \* TRUE: stabilize cuts the new successor list after the node itself (entries past a full circle are dropped)
           MaxTry      \* bound on join / leave attempts in the model (code: 10)
 
 Nil == 0
@@ -72,8 +73,11 @@ StabList(s, n, list) ==
             THEN MkList(ns, s.succ[ns]) ELSE MkList(h, s.succ[h])
        ELSE StabList(s, n, Tail(list))
 
+RECURSIVE CutAtSelf(_, _)
+CutAtSelf(list, n) == IF list = <<>> THEN <<>> ELSE IF Head(list) = n THEN <<n>> ELSE <<Head(list)>> \o CutAtSelf(Tail(list), n)
 StabilizeF(s, n) ==
-  LET nl == StabList(s, n, s.succ[n]) IN
+  LET raw == StabList(s, n, s.succ[n])
+      nl == IF FixWrap THEN CutAtSelf(raw, n) ELSE raw IN
   IF nl = <<>> THEN s
   ELSE LET s1 == [s EXCEPT !.succ[n] = nl]
            h == nl[1] IN
